@@ -236,6 +236,10 @@ def check_case(case):
         return r if isinstance(r, list) else []
     if k == "roundtrip":
         return check_roundtrip(case["optional"], case["mandatory"], case["charts"], case["rotate"])
+    if k == "lookalike":
+        items, charts, sf = build_source([(case["key"], "x")], [])
+        r = check_conversion(items, charts, sf, case["mapping"])
+        return r if isinstance(r, list) else []
     if k == "corpus":
         r = check_corpus(case["file"], case["mapping"])
         return r if isinstance(r, list) else []
@@ -354,6 +358,26 @@ def explore_shard(acc, shard):
                     acc.count("nontrivial")
         if case:
             acc.sample(layer, case)
+    elif kind == "lookalike":
+        # simfile-level keys that merely resemble an SSC-only property name (blanks at the edges, another letter case):
+        # they are other keys and are copied like any unknown key, whatever the policy
+        layer = "keys that resemble SSC-only property names"
+        case = None
+        for prop in MC.SIMFILE_KIND:
+            for key in (prop + " ", " " + prop, prop.lower(), prop.title(), prop + "S", "X" + prop):
+                if key in MC.SIMFILE_KIND:
+                    continue
+                for mp in (None, {k: MC.ERROR for k in MC.KINDS}, {k: MC.IGNORE for k in MC.KINDS}):
+                    case = {"kind": "lookalike", "key": key, "mapping": mp}
+                    core.guard_cheap(acc, case)
+                    items, charts, sf = build_source([(key, "x")], [])
+                    fails = check_conversion(items, charts, sf, mp)
+                    acc.count("states")
+                    acc.count("transitions")
+                    tally(acc, layer, case, fails)
+                    acc.count("nontrivial")
+                    acc.outcome("key resembling an SSC-only property")
+        acc.sample(layer, case)
     elif kind == "templates":
         layer = "templates"
         case = None
@@ -455,6 +479,7 @@ def explore(run):
         for p1 in ("VERSION", "COMBOS", "JACKET"):
             shards.append(("pair", "mixed", p1))
     shards.append(("templates",))
+    shards.append(("lookalike",))
     for rel in ("Springtime/Springtime.ssc", "L9/L9.ssc"):
         if os.path.exists(os.path.join(core.SRC, "testdata", rel)):
             for first in MC.BEHAVIORS:
@@ -479,6 +504,7 @@ def explore(run):
         "the kind of each property, the default behaviours and the default values are pinned from the library's tables (mc/models/convert.py); the algorithm is the statement's",
         "WARPS: absent, empty or a well-formed non-empty list (a blank-only value is not claimed)",
     ]
+    core.require(acc.outcomes["key resembling an SSC-only property"] > 0, "no look-alike keys")
     core.require(acc.c["conversions_judged"] > 1000, "too few conversions")
     core.require(acc.outcomes["non-empty default value compared"] > 0, "no non-empty default compared")
     core.require(acc.outcomes["empty caller template"] > 0, "no empty template")
